@@ -15,8 +15,8 @@ def hx(s):
     return s.encode().hex() if s else "-"
 
 
-def file_of(lines, eol="\n"):
-    return eol.join(["module M"] + [l % (i + 1) if "%d" in l else l for i, l in enumerate(lines)]) + eol
+def file_of(lines, eol="\n", last_eol=True):
+    return eol.join(["module M"] + [l % (i + 1) if "%d" in l else l for i, l in enumerate(lines)]) + (eol if last_eol else "")
 
 
 def probes_of(lines):
@@ -57,8 +57,8 @@ def run(ck):
     rng = ck.rng
     cases, probes = [], []
 
-    def add(lines, syms, eol="\n", kind="seq"):
-        cases.append(("prep %s %s" % (syms, hx(file_of(lines, eol))), kind))
+    def add(lines, syms, eol="\n", kind="seq", last_eol=True):
+        cases.append(("prep %s %s" % (syms, hx(file_of(lines, eol, last_eol))), kind))
         probes.append(probes_of(lines))
 
     # 1. bounded-exhaustive line sequences over well-formed-heavy forms
@@ -74,6 +74,13 @@ def run(ck):
     if ck.tier == "thorough":
         for seq in itertools.product(FORMS, repeat=L + 2):
             add(seq, "A", kind="exh=%d" % (L + 2))
+    # 1b. the same short sequences in files that end without a line break (the last line may be a directive)
+    for n in range(1, 4):
+        for seq in itertools.product(FORMS, repeat=n):
+            for sy in ("-", "A", "A,B"):
+                add(seq, sy, kind="no-final-eol", last_eol=False)
+                if n <= 2:
+                    add(seq, sy, eol="\r\n", kind="no-final-eol", last_eol=False)
     # 2. sequences with malformed forms
     allf = FORMS[:9] + BAD_FORMS
     for n in range(1, 4):
@@ -117,7 +124,14 @@ def run(ck):
                 lines.append(ind + "#undef " + rng.choice("ABC") + cm)
         if rng.random() < 0.8:
             lines += ["#endif"] * depth
-        add(lines, rng.choice(SUBSETS), eol=rng.choice(["\n", "\n", "\r\n"]), kind="random")
+        syms = rng.choice(SUBSETS)
+        if rng.random() < 0.4:
+            # the same file with its symbols spelled with underscores and digits (also among the externally defined ones)
+            ren = {"A": rng.choice(["FOO_BAR", "A_", "_a"]), "B": rng.choice(["x_1", "B2", "b__"]), "C": rng.choice(["C", "c_3_"])}
+            import re as _re
+            lines = [_re.sub(r"\b([ABC])\b", lambda m_: ren[m_.group(1)], l) if l.lstrip().startswith("#") else l for l in lines]
+            syms = ",".join(ren[x] for x in syms.split(",")) if syms != "-" else "-"
+        add(lines, syms, eol=rng.choice(["\n", "\n", "\r\n"]), kind="random", last_eol=rng.random() < 0.8)
 
     lines_in = [c for c, _ in cases]
     m = core.run_model("prep", lines_in, chunk=20000, timeout=900)
